@@ -11,6 +11,7 @@ import Hts.Lemmas.ReaderProps
 import Hts.Lemmas.ReaderLTSTerm
 import Hts.Lemmas.ReaderLTSExact
 import Hts.Lemmas.ReaderLTSFile
+import Hts.Lemmas.ReaderOverLTSCall
 namespace Hts.Props.C02
 open Hts.Model.Bgzf Hts.Spec.Flat
 
@@ -243,6 +244,27 @@ theorem readahead_history_returns_flat_bytes (F : File) (hwf : WF F) (r0 : Reade
   have := readahead_refines_sequential _ hok rfl s t l e hr hs
   exact ⟨fun b i ok b0 h1 h2 => by rw [this.1 b i ok h1 h2, blkOf_load hwf],
     fun w ok b0 h1 h2 => by rw [this.2 w ok h1 h2, blkOf_load hwf]⟩
+
+open Hts.Model Hts.Model.Bgzf Hts.Model.ReadAhead Hts.Spec.Flat in
+/-- **rd > 1 returns the flat bytes — as a statement about bytes.**  `Model/ReaderOverLTS.lean` puts the byte-level
+code of `Read`/`ReadByte`/`Seek` (the loops of `Model/BgzfReader.lean`, written as a program `gRun r0 ops` that makes
+a call where the sequential model loads a block) on top of the protocol: `Over cfg F p s outs t` runs the program
+with every `nextBlock()`/`Seek` being the consumer's next script operation followed by ANY path of the LTS (any
+interleaving with the worker) up to the consumer's return, the block delivered being the protocol's current block
+with the payload of the file at its base.  For every well-formed file, every rd, every script of
+nextBlock/Seek/Close operations, every valid history and EVERY such execution without faults from `NewReader`: per
+operation the bytes, the error and the reader state (hence `LastChunk()`, `BlockLen()`) are those of the sequential
+reader, hence those of the flat specification.  (An execution gets as far as the script agrees with the calls the
+history makes; `readahead_bytes_execution_exists` gives the script with which it runs to the end.) -/
+theorem readahead_bytes_refine_flat (F : File) (hwf : WF F) (r0 : Reader) (h0 : Reader.new F = .ok r0)
+    (ops : List Spec.Flat.Op) (hv : ValidOps (layoutOf F) ops) (rd : Nat) (script : List ReadAhead.Op)
+    (hn : ReadAhead.Op.nexts ∉ script) (outs : List (Out × Reader)) (t : ReadAhead.State)
+    (h : Over ⟨rd, chainOf F, script, false⟩ F (gRun r0 ops)
+      (ReadAhead.init ⟨rd, chainOf F, script, false⟩) outs t) :
+    outs = r0.run ops ∧
+    outs.map Reader.observe = (run (flatOf F) Spec.Flat.init ops).map observeFlat := by
+  have := over_history_eq_sequential hwf h0 ops rd script hn outs t h
+  exact ⟨this, by rw [this]; exact read_refines_flat F hwf r0 h0 ops hv⟩
 
 open Hts.Model Hts.Model.ReadAhead in
 /-- After `Close` has returned the worker goroutine has returned. -/
